@@ -37,6 +37,8 @@ from pathlib import Path
 
 VERIF = Path(__file__).resolve().parent.parent
 REPO = Path(os.environ.get("VERIF_REPO", "/repo"))
+# evidence directory (overridden when a check is pointed at a seeded worktree, so that the committed evidence is not overwritten)
+EVID = Path(os.environ.get("VERIF_EVIDENCE_DIR", str(VERIF / "evidence")))
 KANI_HOME = Path(os.environ.get("KANI_HOME", str(Path.home() / ".kani"))) / "kani-0.68.0"
 KANI_LIB_C = KANI_HOME / "library" / "kani" / "kani_lib.c"
 
@@ -850,7 +852,7 @@ def run_property(pid: str, tier: str, jobs: int, only: str | None, keep: bool, r
             jobs_by_profile.setdefault(pr, []).append(h)
 
     results = []
-    evidence_path = VERIF / "evidence" / f"{pid}.json"
+    evidence_path = EVID / f"{pid}.json"
     evidence_path.parent.mkdir(exist_ok=True)
     build_info = {}
     exit_code = 0
@@ -921,7 +923,7 @@ def run_property(pid: str, tier: str, jobs: int, only: str | None, keep: bool, r
         n_viol = 0
         inconclusive = [r for r in results if r["verdict"] not in ("OK", "FAILED")]
         failed = [r for r in results if r["verdict"] == "FAILED"]
-        replay_dir = VERIF / "evidence" / "replay"
+        replay_dir = EVID / "replay"
         for r in failed:
             new_viol = []
             for v in r["violations"]:
@@ -1052,7 +1054,7 @@ def write_evidence(pid, tier, seed, spec, results, build_info, wall, n_viol, not
     )
     if note:
         ev["coverage"]["note"] = note
-    (VERIF / "evidence" / f"{pid}.json").write_text(json.dumps(ev, indent=1))
+    (EVID / f"{pid}.json").write_text(json.dumps(ev, indent=1))
 
 
 def main():
